@@ -283,8 +283,23 @@ def _route_check(P, f, strip, consts):
                         I.frames = []
                         args.append(dom)
                         continue
-                o = AObj(f.cls)
-                o.attrs['_stack'] = AList([ADict({'encoding': Unk('cur', kinds=['str'], taint=['ARG'])})])
+                # the object the method runs on: built by the class's own constructor with an unknown current encoding
+                # (whatever private state the constructor sets up), falling back to a bare object
+                o = None
+                try:
+                    from sa.values import AStream
+                    init_ = f.cls.find_method('__init__')
+                    if init_ is not None and 'encoding' in init_.params():
+                        saved_ = I.frames
+                        I.frames = [Frame(init_)]
+                        try:
+                            o = I.instantiate(f.cls, [AStream('out', taint=())], {'encoding': Unk('cur', kinds=['str'], taint=['ARG'])}, None)
+                        finally:
+                            I.frames = saved_
+                except AnalysisError:
+                    o = None
+                if o is None:
+                    o = AObj(f.cls)
                 args.append(o)
             elif p in ('encoding',):
                 args.append(Unk(p, kinds=['str', 'NoneType'], taint=['ARG'], src=('param', p)))
